@@ -260,6 +260,7 @@ func propC12(c *ctx) error {
 		}
 		// (b) a failing expression in a directive slot
 		slot := r.pick(slots)
+		wrapper := r.n(7)
 		mk := func(expr string) *renderCase {
 			rc := *rcOK
 			val := expr
@@ -278,6 +279,30 @@ func propC12(c *ctx) error {
 			el := `<em ` + ap + slot + `="` + val + `">slot</em>`
 			if slot == "elif" {
 				el = `<u ` + ap + `if="${f}">no</u>` + el
+			}
+			// the element sits at the top level or inside an enclosing construct that renders it (first kept child of
+			// remove=all-but-first, body of remove=tag, block, range body, selected branch, with body)
+			tp := "t:"
+			if rcOK.Cfg != nil {
+				if s, ok := rcOK.Cfg["tagPrefix"].(string); ok {
+					tp = s
+				}
+			}
+			switch wrapper {
+			case 1:
+				if slot != "elif" {
+					el = `<div ` + ap + `remove="all-but-first">` + el + `<i>second</i></div>`
+				}
+			case 2:
+				el = `<div ` + ap + `remove="tag">` + el + `</div>`
+			case 3:
+				el = `<` + tp + `block>` + el + `</` + tp + `block>`
+			case 4:
+				el = `<div ` + ap + `range="_, q9 : strs">` + el + `</div>`
+			case 5:
+				el = `<div ` + ap + `if="${t}">` + el + `</div><b ` + ap + `else>e</b>`
+			case 6:
+				el = `<div ` + ap + `with="q8 := ${1}">` + el + `</div>`
 			}
 			files := append([][2]string{}, rcOK.Files...)
 			for j := range files {
@@ -299,6 +324,8 @@ func propC12(c *ctx) error {
 		res.S3Checked++
 		cs := rb.toJ()
 		cs["slot"] = slot
+		cs["wrapper"] = wrapper
+		res.count(fmt.Sprintf("slot_wrapper_%d", wrapper))
 		if ob.St != "err" {
 			res.violate(cs, "error", J{"st": ob.St, "out": trunc(ob.text(), 200)}, "a failing expression in a directive does not fail the render")
 		} else if badExpr == "${ferr()}" && !contains(ob.Flags, "sentinel") {
